@@ -10,6 +10,7 @@ mod c06;
 mod rt;
 mod c08;
 mod gram;
+mod c10;
 mod c11;
 mod c12;
 mod rx;
@@ -60,6 +61,7 @@ fn main() {
         "c05" => c06::run_dec(&a),
         "c03" => c03::run(&a),
         "c08" => c08::run(&a),
+        "c10" => c10::run(&a),
         "c11" => c11::run(&a),
         "c12" => c12::run(&a),
         "c15" => c15::run(&a),
